@@ -71,6 +71,23 @@ def handle (j : Json) : Json :=
         ("withs", ns s.withs), ("force_index", ns s.forceIdx), ("use_index", ns s.useIdx), ("updates", ns s.updates),
         ("columns", ns s.columns), ("values", ns s.values), ("foreign", Json.bool s.foreign), ("with_namespace", Json.bool (C08.wantsNs s))]
     | .error e => Json.mkObj [("bad", Json.str e)]
+  | .ok "guard" =>
+    let nats (k : String) : D (List Nat) := do (← fArr j k).mapM (·.getNat?)
+    let b (k : String) : Bool := ((fld j k).getBool?).toOption.getD false
+    let r : D Bool := do
+      match (← (fld j "guard").getStr?) with
+      | "join" => pure (Guard.joinRaises (← nats "ct") (← nats "base") (← nats "joined") (← (fld j "item").getNat?))
+      | "custom_function" => pure (Guard.customFunctionRaises (← jOpt (·.getNat?) (fld j "params")) (← (fld j "nargs").getNat?))
+      | "select_str" => pure (Guard.selectStrRaises (← (fld j "nfrom").getNat?))
+      | "update" => pure (Guard.updateRaises (b "has_update") (b "has_selects") (b "delete_from"))
+      | "delete" => pure (Guard.deleteRaises (b "delete_from") (b "has_selects") (b "has_update"))
+      | "into" => pure (Guard.intoRaises (b "has_insert"))
+      | "top" => pure (Guard.topRaises (b "is_int") (← (fld j "value").getInt?) (b "percent"))
+      | "once" => pure (b "already")
+      | g => throw s!"guard {g}"
+    match r with
+    | .ok v => Json.mkObj [("raises", Json.bool v)]
+    | .error e => Json.mkObj [("bad", Json.str e)]
   | .ok "tbleq" =>
     match (do pure ((← dTbl (fld j "a")), (← dTbl (fld j "b"))) : D (Tbl × Tbl)) with
     | .ok (a, b) => Json.mkObj [("eq", Json.bool (a.beq b)), ("hash_eq", Json.bool (a.hashKey == b.hashKey)),
